@@ -95,6 +95,23 @@ def rbf_cases(ck, rng):
                 if np.abs(np.asarray(f) - ref_f).max() > 1e-12 * (1 + np.abs(ref_f).max()) or np.abs(np.asarray(d) - ref_d).max() > 1e-11 * (1 + np.abs(ref_d).max()):
                     ck.violation("evaluator-layout:%s:%s:%s:result-depends-on-memory-layout" % (cname, what, lname),
                                  {"err_f": float(np.abs(np.asarray(f) - ref_f).max()), "err_d": float(np.abs(np.asarray(d) - ref_d).max())})
+    # ---- a sum kernel k_A + k_B is mapped to a LIST of evaluators that all add into the same value / derivative buffers
+    # (the DFTKernel.map / MappedDFTKernel contract): the list must reproduce the kernel sum of the sum kernel
+    kA = quiet(get_rbf_kernel, slice(0, N1), ls, scale=0.7)
+    kB = quiet(get_rbf_kernel, slice(0, N1), 1.6 * ls, scale=1.3)
+    refA, drefA = py_sum(kA, X, Xc, alpha)
+    refB, drefB = py_sum(kB, X, Xc, alpha)
+    for order, evs in (("rbf+rbf", [RBFEvaluator(kA, Xc, alpha), RBFEvaluator(kB, Xc, alpha)]),
+                       ("kernel+rbf", [KernelEvaluator(kA, Xc, alpha), RBFEvaluator(kB, Xc, alpha)]),
+                       ("rbf+kernel", [RBFEvaluator(kA, Xc, alpha), KernelEvaluator(kB, Xc, alpha)])):
+        f = np.zeros(X.shape[0])
+        df = np.zeros_like(X)
+        for ev in evs:
+            ev(X.copy(), f, df)
+        ck.count(key=("evaluator-list", order))
+        if np.abs(f - (refA + refB)).max() > 1e-12 * (1 + np.abs(refA + refB).max()) or np.abs(df - (drefA + drefB)).max() > 1e-11 * (1 + np.abs(drefA + drefB).max()):
+            ck.violation("evaluator-list:%s:differs-from-kernel-sum-of-the-sum-kernel" % order,
+                         {"err_f": float(np.abs(f - (refA + refB)).max()), "err_d": float(np.abs(df - (drefA + drefB)).max())})
     # antisymmetric evaluator against its Python kernel
     from ciderpress.models.kernel_plans.kernel_tools import get_antisym_rbf_kernel
     ck.count(key=("antisym",))
